@@ -575,6 +575,10 @@ def run_ops(oplist, stream='?', result=None, batch=4000):
         except RecursionError:
             result.skipped_unrepresentable += 1
             continue
+        except Exception as e:  # noqa: BLE001
+            # the real call returned something the harness cannot even canonicalise (a result of
+            # another shape than the modelled function returns): a disagreement, not a tool crash
+            real = {'uncanonicalisable_result': f'{type(e).__name__}: {e}'}
         result.evaluations += 1
         result.by_stream[stream] += 1
         result.outcomes[stream + ':' + outcome_of(real)] += 1
